@@ -14,7 +14,9 @@
 EXTENDS Integers, Sequences, FiniteSets, TLC, Json
 
 CONSTANTS N, Policy, Mct, Aging, Rotate, Advances, MaxNow, MaxDepth,
-          AllowLeave     \* TRUE: the driver may take an agent out of the queue (its bookkeeping entries stay)
+          AllowLeave,    \* TRUE: the driver may take an agent out of the queue (its bookkeeping entries stay)
+          InitStamp      \* the last-ran stamp the state is initialised with (init_scheduler_state(now_ms=...)): it may lie
+                         \* AHEAD of the turn clock (restored state, another clock source); a yield still stamps `now`
 
 Agents == 1..N
 
@@ -43,7 +45,7 @@ RotateF(q, a) == IF Policy = "round_robin" /\ Rotate
                  THEN Append(SelectSeq(q, LAMBDA x : x # a), a) ELSE q
 
 Init == /\ queue = [i \in 1..N |-> i]
-        /\ lastran = [a \in Agents |-> 0]
+        /\ lastran = [a \in Agents |-> InitStamp]
         /\ consec = [a \in Agents |-> 0]
         /\ now = 0
         /\ since = [a \in Agents |-> 0]
